@@ -137,6 +137,11 @@ func installSigner(info *nfpm.Info, format string, s *SimSigner) {
 		info.RPM.Signature.SignFn = s.Fn()
 	case "apk":
 		info.APK.Signature.SignFn = s.Fn()
+		// a library user who signs through a callback names the key; without
+		// a maintainer address nfpm cannot derive a name
+		if info.APK.Signature.KeyName == "" && info.Maintainer == "" {
+			info.APK.Signature.KeyName = "verifcallback"
+		}
 	}
 }
 
